@@ -698,6 +698,9 @@ static void copy_struct_mem(void) {
     println("  mov %d(%%rax), %%dl", i);
     println("  mov %%dl, %d(%%rdi)", i);
   }
+
+  // The address of the returned object is returned in RAX.
+  println("  mov %%rdi, %%rax");
 }
 
 static void builtin_alloca(void) {
